@@ -545,7 +545,7 @@ class Ctx:
                     break
         if not self.stop():
             flush()
-        self.enumeration(name or part.name, total, exhaustive and not self.stop() and self.W == 1)
+        self.enumeration(name or part.name, total, exhaustive and not self.stop())
         return total
 
     def replay_dir(self):
@@ -630,11 +630,13 @@ def finalize(prop, tier, seed, level, results, open_sigs, wall=None):
     by_name = {}
     for r in results:
         for e in r["enumerations"]:
-            b = by_name.setdefault(e["name"], {"name": e["name"], "size": 0, "exhaustive": e["exhaustive"] or len(results) > 1})
+            b = by_name.setdefault(e["name"], {"name": e["name"], "size": 0, "exhaustive": True, "parts": 0})
             b["size"] += e["size"]
+            b["parts"] += 1
+            b["exhaustive"] = b["exhaustive"] and bool(e["exhaustive"])
     for b in by_name.values():
-        if len(results) > 1:
-            b["exhaustive"] = bool(b.get("exhaustive")) and not violations
+        # complete only if every worker finished its share completely and nothing was cut short by a violation
+        b["exhaustive"] = b["exhaustive"] and b.pop("parts") == len(results) and not violations
     enumerations = list(by_name.values())
     for sig in sorted(known_seen):
         k = open_sigs.get(sig, {})
